@@ -132,10 +132,14 @@ def register(add, NOTE):
         "the same pulses with the same multiplicities; the pre-repair criterion is refuted by a witness. (2) objects and tags — every model "
         "the reader produces from any mix of arcs, helices and wires with explicit non-consecutive or automatic tags (read in the order arcs, "
         "helices, wires; automatic tags max+1, ...; sorted by tag) is reproduced by reading the written options, and writing again gives the "
-        "same options. Tie: stages `cmd` and `objs` compare the model reader / writer with the real main / as_cmdline on generated command "
-        "lines. PARTIAL: tapering, transformations, sources, media and load parameters are not modelled; the oracle runs write -> main -> "
-        "write on the real code and compares descriptions, feed impedance and the second writing.",
-        "Rocq proof (attachment writer/reader by counting; object tags by sorting / permutation invariance) + vm_compute correspondence + write/read/write oracle on the real code",
+        "same options; writing the re-read load gives the same attachment options. (3) load numbering — for every list of lumped loads of "
+        "any kinds in any registration order (parameters and attachment options of any type) the written options are accepted and give the "
+        "same loads grouped by kind (a permutation of the model's loads), each with its own attachments, and writing again gives the same "
+        "options. (4) sources — every source list main can produce (default source, single source of 1 V, several sources) is reproduced; the "
+        "pre-repair writer is refuted. Tie: stages `cmd`, `objs`, `loads`, `srcs` compare the model readers / writers with the real main / "
+        "as_cmdline on generated command lines. PARTIAL: tapering, transformations, media and the numeric parameters are not modelled; the "
+        "oracle runs write -> main -> write on the real code and compares descriptions, feed impedance and the second writing.",
+        "Rocq proof (attachment writer/reader by counting; object tags by sorting / permutation invariance; load numbering by induction over the written list; sources by cases) + vm_compute correspondence + write/read/write oracle on the real code",
         "DESIGN.md §6 C15", note=NOTE + PART)
     add("C18",
         "Theorem: for every combination of environment (free space, perfect ground, 1..n media with linear / circular boundary and radials), "
@@ -149,13 +153,16 @@ def register(add, NOTE):
         "Rocq proof (parser/printer round trip for the prompt automaton) + vm_compute correspondence on the real text + independent re-reading oracle",
         "DESIGN.md §6 C18", note=NOTE + PART)
     add("C20",
-        "Theorems: for every assignment of admissible faults to the 22 stages of main (parsing and constructing each kind of option, "
+        "Theorems: (a) on the exception flow REGENERATED from main's syntax tree on every run (py/translate_main.py -> Gen/MainFlow.v: every "
+        "place where main performs an operation that can raise, with the handlers of the try statements around it): every kind of exception "
+        "the operation can raise is turned into the diagnostic, hence whichever operation raises first the run does not end in an uncaught "
+        "exception; every frequency of a sweep lies inside the guarded range. (b) for every assignment of admissible faults to the 22 stages of main (parsing and constructing each kind of option, "
         "transformations, media, Mininec(), sources, loads, attachments, distributed loads, angles, near field, compute, fields, report) the "
         "run ends in the report or in the diagnostic of the first failing stage, never in an uncaught exception; the same table before the "
         "repairs is refuted by a witness (frequency zero); the frequency guard 0 < f < 1e150 keeps every constant of the frequency setter "
         "(translator-extracted) positive and below 1e300 (interval). Tie: stage `main` provokes every (stage, exception kind) row through the "
         "real main. The oracle mutates valid command lines (zero, negative, huge, denormal, non-finite values, wrong arity, unknown tags, "
-        "duplicates, contradictions) and classifies the ending. PARTIAL: the table is transcribed, not translated. 21 fix: commits repaired "
-        "what the oracle found.",
-        "Rocq proof (exception-flow table, numeric guard by interval arithmetic) + row-by-row correspondence on the real main + mutation oracle",
+        "duplicates, contradictions) and classifies the ending. PARTIAL: what each primitive / stage can raise is transcribed (where it is "
+        "performed and what surrounds it is translated). 29 fix: commits repaired what the oracle found.",
+        "Rocq proof (site list translated from the source, checked by vm_compute + forallb_forall; stage table; numeric guards by lra / interval) + row-by-row correspondence on the real main + mutation oracle",
         "DESIGN.md §6 C20, App. C", note=NOTE + PART)
